@@ -177,6 +177,9 @@ def finish(ctx, level_text):
     with open(os.path.join(out_base, 'evidence', ctx.prop + '.json'), 'w') as fh:
         json.dump(ev, fh, indent=1, default=str)
 
+    if os.environ.get('NVSTAT_DUMP'):       # developer aid: the full obligation list
+        with open(os.environ['NVSTAT_DUMP'], 'w') as fh:
+            json.dump([[o.rule, o.construct, o.ok, o.where] for o in ctx.obligations], fh)
     for ln in out_lines:
         print(ln)
     print('%s %s tier=%s obligations=%d discharged=%d constructs=%d new_violations=%d '
